@@ -6,9 +6,27 @@ use std::sync::atomic::{AtomicUsize, Ordering};
 pub struct Tracking;
 pub static MAX_REQ: AtomicUsize = AtomicUsize::new(0);
 
+// C07 child processes: a request above damrun::ALLOC_LIMIT is reported with its call site
+// (usize::MAX = off, the default)
+// returns true when the request is refused (the allocator then returns null: the request fails the way it
+// would on a machine without that much memory)
+#[inline]
+fn watch(size: usize) -> bool {
+    use crate::damrun::{ALLOC_LIMIT, IN_REPORT};
+    if size > ALLOC_LIMIT.load(Ordering::Relaxed) {
+        if !IN_REPORT.swap(true, Ordering::SeqCst) {
+            crate::damrun::report_alloc(size);
+            IN_REPORT.store(false, Ordering::SeqCst);
+            return true;
+        }
+    }
+    false
+}
+
 unsafe impl GlobalAlloc for Tracking {
     unsafe fn alloc(&self, l: Layout) -> *mut u8 {
         MAX_REQ.fetch_max(l.size(), Ordering::Relaxed);
+        if watch(l.size()) { return std::ptr::null_mut(); }
         unsafe { System.alloc(l) }
     }
     unsafe fn dealloc(&self, p: *mut u8, l: Layout) {
@@ -16,10 +34,12 @@ unsafe impl GlobalAlloc for Tracking {
     }
     unsafe fn realloc(&self, p: *mut u8, l: Layout, n: usize) -> *mut u8 {
         MAX_REQ.fetch_max(n, Ordering::Relaxed);
+        if watch(n) { return std::ptr::null_mut(); }
         unsafe { System.realloc(p, l, n) }
     }
     unsafe fn alloc_zeroed(&self, l: Layout) -> *mut u8 {
         MAX_REQ.fetch_max(l.size(), Ordering::Relaxed);
+        if watch(l.size()) { return std::ptr::null_mut(); }
         unsafe { System.alloc_zeroed(l) }
     }
 }
